@@ -988,6 +988,9 @@ def _schedule(prop, tier, seed):
         for dd in ((0,) if quick else (0, 1, 16)):
             cases.append(Case("%sstd_dd%d" % (prop.lower(), dd), base, mk="std", dd=dd))
         cases.append(Case(prop.lower() + "std_nobc", ["ab", "b"] if quick else base, mk="std", bc=False))
+        # 256 byte classes and every state sparse: the padding slots of the contiguous NFA's sparse encoding
+        # (2 and 3 transitions: not a multiple of the chunk size) meet byte 0xFF (seeded change C16b)
+        cases.append(Case(prop.lower() + "std_nobc_dd0", ["ab", "ac", "b", "cab", "cb", "cc"], mk="std", bc=False, dd=0))
         if not quick:
             cases.append(Case(prop.lower() + "lf_nobc_dd0", base, mk="lf", bc=False, dd=0))
             cases.append(Case(prop.lower() + "ll_basic", base, mk="ll"))
@@ -1063,6 +1066,12 @@ def _schedule(prop, tier, seed):
                     hs.append(h_iter_never_fails(prop, c, facts, "dfa", ov=False))
                 if c.mk == "std" and (not quick or c.name in ("c13std_un",)):
                     hs.append(h_iter_never_fails(prop, c, facts, "dfa", ov=True))
+                if quick and c.name in ("c13std_an", "c13lf_an", "c13lf_un"):
+                    # the DFA refuses an unsupported anchoring by itself (start_state fails); both NFAs support
+                    # both start states, so on them only the top-level consistency check can reject: every
+                    # fallible entry point on one NFA in the cells with a one-sided start kind (seeded change C13b)
+                    for api in [0, 1, 2, 3]:
+                        hs.append(h_reject_fallible(prop, c, facts, "cnfa", api))
                 for kind in kinds:
                     full = kind == "dfa" or not quick
                     for api in ([0, 1, 2, 3] if full else [2]):
